@@ -519,6 +519,18 @@ class SymExec:
                 c = self.ev(s.test, st, depth)
             except _Fork as fk:
                 # the test is a call of a method with several outcomes: every outcome continues into the branch its value selects
+                if isinstance(s.test, ast.BoolOp) and len(s.test.values) >= 2:
+                    # `if A and B: X else: Y`  ==  `if A: (if B: X else: Y) else: Y`   (short-circuit order kept; or: dually)
+                    first, rest = s.test.values[0], s.test.values[1:]
+                    rest_t = rest[0] if len(rest) == 1 else ast.copy_location(ast.BoolOp(op=s.test.op, values=rest), s.test)
+                    inner = ast.copy_location(ast.If(test=rest_t, body=s.body, orelse=s.orelse), s)
+                    if isinstance(s.test.op, ast.And):
+                        outer = ast.copy_location(ast.If(test=first, body=[inner], orelse=s.orelse), s)
+                    else:
+                        outer = ast.copy_location(ast.If(test=first, body=s.body, orelse=[inner]), s)
+                    return self._stmt(outer, st, depth)
+                if isinstance(s.test, ast.UnaryOp) and isinstance(s.test.op, ast.Not):
+                    return self._stmt(ast.copy_location(ast.If(test=s.test.operand, body=s.orelse or [ast.copy_location(ast.Pass(), s)], orelse=s.body), s), st, depth)
                 if not isinstance(s.test, ast.Call):
                     raise
                 outs = []
